@@ -66,7 +66,7 @@ type pipeCase struct {
 }
 
 var pipeHosts = map[string]string{
-	"origin": "origin.test", "denied": "denied.test", "deniedUpper": "WWW.DENIED.TEST", "deniedWide": "\uff44\uff45\uff4e\uff49\uff45\uff44.test", "deniedDot": "denied.test.", "deniedUpperRule": "Shouty.Test", "denyExcl": "excl.denied.test",
+	"origin": "origin.test", "denied": "denied.test", "deniedUpper": "WWW.DENIED.TEST", "deniedWide": "\uff44\uff45\uff4e\uff49\uff45\uff44.test", "deniedDot": "denied.test.", "deniedIdeoDot": "denied.test\u3002", "deniedUpperRule": "Shouty.Test", "denyExcl": "excl.denied.test",
 	"direct": "direct.test", "directUpper": "WWW.DIRECT.TEST", "directExcl": "excl.direct.test",
 	"denyExclCaps": "SAFE.shield.test", "deniedCaps": "Other.SHIELD.test", "directExclCaps": "Secure.corp.test", "directCaps": "Wiki.CORP.test",
 	"lo4PlusPort": "127.0.0.1:+80", "lhServicePort": "localhost:http",
@@ -81,7 +81,7 @@ var pipeHosts = map[string]string{
 }
 
 // pipeDialed: the spelling under which a host is dialled when it is not the one the client used.
-var pipeDialed = map[string]string{"lhWide": "localhost", "lo4Ideo": "127.0.0.1", "deniedWide": "denied.test"}
+var pipeDialed = map[string]string{"lhWide": "localhost", "lo4Ideo": "127.0.0.1", "deniedWide": "denied.test", "deniedIdeoDot": "denied.test."}
 
 // pipeHostsFile: the proxy reads the names of the local system from the hosts file when it is created; the harness gives it
 // one with loopback names on either side of "localhost" in the alphabet, a Debian-style 127.0.1.1 line and an IPv6 line.
@@ -265,6 +265,12 @@ func pacString(v string) string {
 		return ret("SOCKS4 " + addrC)
 	case "FOO_A":
 		return ret("FOO " + addrA)
+	case "proxy_A":
+		return ret("proxy " + addrA)
+	case "Https_B":
+		return ret("Https " + addrB)
+	case "socks5_C":
+		return ret("socks5 " + addrC)
 	case "PROXY_noport":
 		return ret("PROXY proxya.test")
 	case "PROXY_nohost":
@@ -548,8 +554,20 @@ func pipeRun(e *env) {
 			}
 			defer pe.close()
 			if fc.TimeFrame != "out" {
-				if err := pe.learnTag(); err != nil {
-					fatal("learn tag: %v (cfg %s)", err, k)
+				var lerr error
+				for try := 0; try < 3; try++ {
+					if lerr = pe.learnTag(); lerr == nil {
+						break
+					}
+				}
+				if lerr != nil {
+					// three plain requests in a row went unanswered under this configuration: that is the observation
+					// (a route that should be direct leading to a peer that does not answer, for one); the group's cases
+					// are reported with it instead of being played without the instance's Via element
+					for _, c := range groups[k] {
+						e.emit(map[string]any{"gen": c.Gen, "idx": c.idx, "ok": false, "why": "a plain request for origin.test is not answered under this configuration: " + lerr.Error(), "cfg": c.Cfg, "req": c.Req, "out": c.Out})
+					}
+					return
 				}
 			}
 			for _, c := range groups[k] {
